@@ -29,6 +29,14 @@ Extension (same namespace, sections below), all for every run length and ANY ora
         precision_slack_needed (the slack cannot be dropped), evalGap_guarantees, evalGap_saddle_point,
         loop_certificate, loop_guarantees, loop_guarantees_end_to_end (the two guarantees for the OUTPUT of the loop),
         best_h_store, best_h_returned (cache), project_raises_L (the project_lambda step of _eval)
+  * (review L1) the fragments that used to be hard-coded are now LIFTED and consumed by the model functions: the `L`
+        expression and `max_constraint` of `_eval` (`Saddle.lagr`, `viol`, `maxViol`), the `L_low` update test (`updLow`),
+        the projection order of `_eval` and the body of `project_lambda` (`projLam`, `Saddle.project`), `idxmin` (`argminFrom`),
+        `lambda_EG`'s mean (`meanCols`), `last_gap = inf` (`initState`), `weights_ = Qs[best_iter_]` (`weightsOf`) and the
+        data-flow fact that `Qs` holds a fresh object per iteration (`storeQ`).  Section (3d): eval_L_lifted,
+        eval_max_constraint_lifted, eval_gap_low_update_lifted, eval_projection_lifted, best_h_scan_lifted, lambda_EG_lifted,
+        last_gap_init_lifted, qs_entries_are_snapshots, weights_are_certified_iterate, vec_padTo, loop_guarantees_weights
+        (the certificate for the attribute `weights_` itself)
 
 CLAUSE → THEOREM TABLE (review R2; property text of properties.jsonl, clause by clause)
   0 premise "exact cost-sensitive learner over a finite hypothesis class; constrained problem feasible"
